@@ -32,6 +32,7 @@ structure Stats where
   nestedSigs : Nat := 0         -- scope depth ≥ 2
   maxWidth : Nat := 0
   samePsCommits : Nat := 0      -- commits overwritten inside one ps
+  lineEvents : Nat := 0         -- clock / reset changes compared with their exact time
   tvLines : Nat := 0
   tvGroups : Nat := 0
   tvChecks : Nat := 0
@@ -146,16 +147,34 @@ def checkCase (c : Case) (st0 : Stats) : IO Stats := do
     let r := encodeStep cfg tracked e
     tracked := r.1
     for l in r.2 do modelLines := modelLines.push l
+  -- for triage of a broken correspondence: do both texts mean the same (same value changes under the same time stamps)? A time stamp
+  -- under which nothing changes is dropped, repeated stamps are merged; everything else must agree line by line
+  let meaning (ls : Array String) : Array String := Id.run do
+    let mut out : Array String := #[]
+    let mut pend : Option String := none
+    let mut cur : Option String := none
+    for l in ls do
+      if l.startsWith "#" then pend := some l
+      else
+        match pend with
+        | some p =>
+          if cur != some p then out := out.push p
+          cur := some p
+          pend := none
+        | none => pure ()
+        out := out.push l
+    return out
+  let sameMeaning := meaning (modelLines.map String.ofList) == meaning c.vcd
   let mut vcdDiff := false
   if modelLines.size != c.vcd.size then
     vcdDiff := true
-    fail "DIFF" s!"what=vcd-line-count model={modelLines.size} impl={c.vcd.size}"
+    fail "DIFF" s!"what=vcd-line-count model={modelLines.size} impl={c.vcd.size} same-value-changes-under-same-time-stamps={sameMeaning}"
   for i in [0:min modelLines.size c.vcd.size] do
     if !vcdDiff then
       let m := String.ofList modelLines[i]!
       if m != c.vcd[i]! then
         vcdDiff := true
-        fail "DIFF" s!"what=vcd-line line={i + 1} model=[{m}] impl=[{c.vcd[i]!}]"
+        fail "DIFF" s!"what=vcd-line line={i + 1} model=[{m}] impl=[{c.vcd[i]!}] same-value-changes-under-same-time-stamps={sameMeaning}"
   st := { st with ops := st.ops + c.vcd.size, diffs := st.diffs + (if vcdDiff then 1 else 0) }
   -- (i) read the REAL file with the Lean reader and compare with the sampler at every commit
   let table := varTable c.vcd
@@ -226,6 +245,49 @@ def checkCase (c : Case) (st0 : Stats) : IO Stats := do
     st := r.1; firstBad := r.2
     ci := ci + 1
   st := { st with ops := st.ops + st.valueCmps - st0.valueCmps }
+  -- clock and reset lines: the value reconstructed from the REAL file at every time = what onClock / onReset reported, with exact times
+  let lineCodes := (table.filter fun e => e.1 == ["clocks"]).map fun e => e.2.2.1
+  let nclk := cfg.clocks.length
+  let nlines := nclk + cfg.resets.length
+  -- ground truth timelines: (ps, value) per line, starting with the value read at initialisation
+  let mut truth : Array (Array (Nat × B4)) := Array.replicate nlines #[]
+  for i in [0:nlines] do
+    let iv := if i < nclk then init.clocks.getD i none else init.resets.getD (i - nclk) none
+    truth := truth.set! i #[(0, match iv with | some b => ofBool b | none => .x)]
+  let mut tps := 0
+  for e in c.evs do
+    match e with
+    | .tick n d => tps := tickPs n d
+    | .clock j b => if j < nclk then truth := truth.modify j (·.push (tps, ofBool b))
+    | .reset j b => if j < cfg.resets.length then truth := truth.modify (nclk + j) (·.push (tps, ofBool b))
+    | _ => pure ()
+  -- timelines read from the file
+  let mut fileTl : Std.HashMap Str (Array (Nat × B4)) := {}
+  let mut ft := 0
+  for it in items do
+    match it with
+    | .time t' => ft := t'
+    | .change code [b] => if lineCodes.contains code then fileTl := fileTl.insert code ((fileTl.getD code #[]).push (ft, b))
+    | _ => pure ()
+  -- value as a function of time: keep the last change of every picosecond, drop changes to the same value
+  let normalize (tl : Array (Nat × B4)) : Array (Nat × B4) := Id.run do
+    let mut out : Array (Nat × B4) := #[]
+    for (t, v) in tl do
+      if out.size > 0 && (out.back!).1 == t then out := out.pop
+      if !(out.size > 0 && (out.back!).2 == v) then out := out.push (t, v)
+    return out
+  for i in [0:nlines] do
+    let want := normalize (truth[i]!)
+    let got := match lineCodes[i]? with
+      | some code => normalize (#[(0, B4.x)] ++ fileTl.getD code #[])
+      | none => #[]
+    st := { st with ops := st.ops + want.size, lineEvents := st.lineEvents + want.size }
+    if got != want then
+      let k := (List.range (max got.size want.size)).find? (fun k => got[k]? != want[k]?) |>.getD 0
+      let sh (o : Option (Nat × B4)) : String := match o with | some (t, v) => s!"{String.ofList [b4Char v]}@{t}ps" | none => "-"
+      let nm := if i < nclk then String.ofList (cfg.clocks.getD i default).2 else String.ofList (cfg.resets.getD (i - nclk) default).2
+      fail "PROPFAIL" s!"kind={if i < nclk then "vcd-clock-time" else "vcd-reset-time"} line={nm} change#{k} vcd={sh got[k]?} simulator={sh want[k]?} (value of the line as a function of time, reconstructed from the file vs. onClock/onReset)"
+      st := { st with propfails := st.propfails + 1 }
   -- the same reading through the model's `decodeLines` (the function of the round-trip theorem) on a few queries
   let realLines := c.vcd.toList.map String.toList
   if ncommits > 0 then
@@ -426,4 +488,4 @@ def main : IO Unit := do
     c := r.1
     st := r.2
   let sel := ",".intercalate (st.selHist.toList.map fun (k, v) => s!"\"{k}\":{v}")
-  IO.println s!"SUMMARY \{\"cases\":{st.cases},\"ops\":{st.ops},\"diffs\":{st.diffs},\"propfails\":{st.propfails},\"signals\":{st.signals},\"commits\":{st.commits},\"ticks\":{st.ticks},\"vcd_lines\":{st.vcdLines},\"value_comparisons\":{st.valueCmps},\"decodeLines_queries\":{st.modelQueries},\"sampled_bits\":{st.sampledBits},\"undefined_bits\":{st.undefBits},\"scalar_signals\":{st.scalarSigs},\"vector_signals\":{st.vectorSigs},\"hidden_signals\":{st.hiddenSigs},\"memory_words\":{st.memSigs},\"signals_wider_than_64\":{st.wideSigs},\"signals_in_nested_scopes\":{st.nestedSigs},\"max_width\":{st.maxWidth},\"commits_sharing_a_ps\":{st.samePsCommits},\"tv_lines\":{st.tvLines},\"tv_groups\":{st.tvGroups},\"tv_checks\":{st.tvChecks},\"tv_sets\":{st.tvSets},\"tv_rsts\":{st.tvRsts},\"tv_sets_in_during_phase\":{st.tvDuringSets},\"tv_groups_in_empty_interval\":{st.tvEmptyIntervals},\"tv_groups_with_carried_remainder\":{st.tvNonzeroRemainders},\"replayed_statements\":{st.replayed},\"replay_failures\":{st.replayFails},\"precondition_violations\":{st.precondViolations},\"selection\":\{{sel}}}"
+  IO.println s!"SUMMARY \{\"cases\":{st.cases},\"ops\":{st.ops},\"diffs\":{st.diffs},\"propfails\":{st.propfails},\"signals\":{st.signals},\"commits\":{st.commits},\"ticks\":{st.ticks},\"vcd_lines\":{st.vcdLines},\"value_comparisons\":{st.valueCmps},\"decodeLines_queries\":{st.modelQueries},\"sampled_bits\":{st.sampledBits},\"undefined_bits\":{st.undefBits},\"scalar_signals\":{st.scalarSigs},\"vector_signals\":{st.vectorSigs},\"hidden_signals\":{st.hiddenSigs},\"memory_words\":{st.memSigs},\"signals_wider_than_64\":{st.wideSigs},\"signals_in_nested_scopes\":{st.nestedSigs},\"max_width\":{st.maxWidth},\"commits_sharing_a_ps\":{st.samePsCommits},\"clock_reset_changes_compared\":{st.lineEvents},\"tv_lines\":{st.tvLines},\"tv_groups\":{st.tvGroups},\"tv_checks\":{st.tvChecks},\"tv_sets\":{st.tvSets},\"tv_rsts\":{st.tvRsts},\"tv_sets_in_during_phase\":{st.tvDuringSets},\"tv_groups_in_empty_interval\":{st.tvEmptyIntervals},\"tv_groups_with_carried_remainder\":{st.tvNonzeroRemainders},\"replayed_statements\":{st.replayed},\"replay_failures\":{st.replayFails},\"precondition_violations\":{st.precondViolations},\"selection\":\{{sel}}}"
